@@ -61,13 +61,73 @@ pub fn run(ctx: &Ctx) -> i32 {
             }
         });
     });
-    let floors = build::structural_floors(ctx.tier == crate::ctx::Tier::Thorough);
+    // builders that saw REJECTED calls in between must still produce a well-formed file holding the accepted history
+    let keys: Vec<Vec<u8>> = vec![b"".to_vec(), b"a".to_vec(), b"ab".to_vec(), b"b".to_vec(), b"ba".to_vec(), b"c".to_vec()];
+    let maxlen = ctx.tier.pick(5, 6);
+    let ev2 = ctx.par(|shard, n, ev| {
+        let mut seq: Vec<usize> = vec![];
+        let mut idx = 0usize;
+        // iterate over all sequences of length 1..=maxlen in mixed radix
+        for len in 1..=maxlen {
+            let total = keys.len().pow(len as u32);
+            for t in 0..total {
+                idx += 1;
+                if idx % n != shard {
+                    continue;
+                }
+                seq.clear();
+                let mut x = t;
+                for _ in 0..len {
+                    seq.push(x % keys.len());
+                    x /= keys.len();
+                }
+                for set_mode in [false, true].iter() {
+                    let mut model = crate::checks::c06::Model::new(*set_mode);
+                    let r = guard(|| {
+                        if *set_mode {
+                            let mut b = fst::SetBuilder::memory();
+                            for &k in &seq {
+                                let _ = b.insert(&keys[k]);
+                            }
+                            b.into_inner().map_err(|e| e.to_string())
+                        } else {
+                            let mut b = fst::MapBuilder::memory();
+                            for (i, &k) in seq.iter().enumerate() {
+                                let _ = b.insert(&keys[k], (i as u64 + 1) * 10);
+                            }
+                            b.into_inner().map_err(|e| e.to_string())
+                        }
+                    });
+                    for (i, &k) in seq.iter().enumerate() {
+                        model.step(&keys[k], (i as u64 + 1) * 10);
+                    }
+                    ev.eval(None);
+                    ev.distinct_extra += 1;
+                    ev.count("files-from-builders-with-rejected-calls");
+                    let descr = || crate::json::J::obj(vec![("front_end", crate::json::J::s(if *set_mode { "SetBuilder" } else { "MapBuilder" })), ("calls", crate::json::J::A(seq.iter().map(|&k| crate::json::J::bytes(&keys[k])).collect()))]);
+                    match r {
+                        Ok(Ok(bytes)) => {
+                            if let Err(e) = refdec::validate_v3(&bytes, 0, &model.accepted) {
+                                ev.violate("format", format!("a builder that rejected some calls produced a file that is not a well-formed v3 FST of its accepted keys: {}", e), descr());
+                            }
+                        }
+                        Ok(Err(e)) => ev.violate("build-error", format!("finishing after rejected calls failed: {}", e), descr()),
+                        Err(p) => ev.violate("build-panic", format!("builder panicked on a call sequence with rejected calls: {}", p), descr()),
+                    }
+                }
+            }
+        }
+    });
+    let mut ev = ev;
+    ev.merge(ev2);
+    let mut floors = build::structural_floors(ctx.tier == crate::ctx::Tier::Thorough);
+    floors.push(("files-from-builders-with-rejected-calls", 10_000));
     finish(
         ctx,
         ev,
         Spec {
             level: "exploration",
-            rule: "one evaluation = one built file decoded by the independent format decoder: header (version 3, type), footer (count, root, masked CRC-32C by the bit-wise reference), every reachable node parsed under the documented layouts, transitions point strictly backwards or to the sentinel, node extents tile [16, footer) exactly, root is last, decoded map == inserted map; same case pool as C01; non-trivial = at least one key; distinct = distinct (content, front end)",
+            rule: "one evaluation = one built file decoded by the independent format decoder: header (version 3, type), footer (count, root, masked CRC-32C by the bit-wise reference), every reachable node parsed under the documented layouts, transitions point strictly backwards or to the sentinel, node extents tile [16, footer) exactly, root is last, decoded map == inserted map; same case pool as C01, plus the files finished by Map/Set builders after ALL call sequences of length <=5 (thorough <=6) over 6 keys, i.e. with rejected calls in between (must encode exactly the accepted history); non-trivial = at least one key; distinct = distinct (content, front end)",
             assumptions: vec![
                 "the 63-entry common-input table is format data pinned from the pinned revision".into(),
                 "compactness choices (minimal widths, preferred node forms) are encoder policy: recorded, not judged".into(),
